@@ -24,7 +24,7 @@ Subset (anything else is REFUSED with a message naming the construct; the transl
     zero — a panic or a wrap in Rust — is RECORDED as an assumption of the definition), `& | ^ ! << >>` with explicit
     width (`!x` = `(2^w-1) ^^^ x`, `x << n` = `(x <<< n) % 2^w`, assumption `n < w` recorded), `as` casts between
     unsigned widths / from char / from u8 to char, a small table of methods (`is_ascii_*`, `wrapping_*`, `min`, `max`,
-    `pow`, `count_ones`-free), calls of other functions translated in the same run.
+    `pow`, `saturating_*`), calls of other functions / methods translated earlier in the same run.
 Exit status: 0 = every whitelisted function translated; 2 = at least one refused / not found (its definition is
 then ABSENT from the generated file, so the proof obligation about it fails to elaborate instead of passing on a stale
 definition); the status file has one record per function: {anchor, ok, props, hard, detail, file, line, lean, model,
@@ -35,19 +35,19 @@ import argparse, json, os, re, sys
 # ---------------------------------------------------------------------------------------------- whitelist
 WHITELIST = [
     dict(file='src/common/utils.rs', impl=None, fn='is_valid_entity_code', lean='is_valid_entity_code',
-         model='MdIt.Entity.isValidEntityCode', theorem='translated_is_valid_entity_code_eq', props=['C12']),
+         model='MdIt.Entity.isValidEntityCode', theorem='MdIt.GenTranslated.translated_is_valid_entity_code_eq', props=['C12']),
     dict(file='src/common/mdurl/asciiset.rs', impl='AsciiSet', fn='new', lean='AsciiSet_new',
-         model='MdIt.Url.asciiNew', theorem='translated_AsciiSet_new_eq', props=['C17', 'C04']),
+         model='MdIt.Url.asciiNew', theorem='MdIt.GenTranslated.translated_AsciiSet_new_eq', props=['C17', 'C04']),
     dict(file='src/common/mdurl/asciiset.rs', impl='AsciiSet', fn='empty', lean='AsciiSet_empty',
-         model='0 (the empty history start of MdIt.Url.setOps)', theorem='translated_AsciiSet_empty_eq', props=['C17', 'C04']),
+         model='0 (the empty history start of MdIt.Url.setOps)', theorem='MdIt.GenTranslated.translated_AsciiSet_empty_eq', props=['C17', 'C04']),
     dict(file='src/common/mdurl/asciiset.rs', impl='AsciiSet', fn='add', lean='AsciiSet_add',
-         model='MdIt.Url.setAdd', theorem='translated_AsciiSet_add_eq', props=['C17', 'C04']),
+         model='MdIt.Url.setAdd', theorem='MdIt.GenTranslated.translated_AsciiSet_add_eq', props=['C17', 'C04']),
     dict(file='src/common/mdurl/asciiset.rs', impl='AsciiSet', fn='remove', lean='AsciiSet_remove',
-         model='MdIt.Url.setRemove', theorem='translated_AsciiSet_remove_eq', props=['C17', 'C04']),
+         model='MdIt.Url.setRemove', theorem='MdIt.GenTranslated.translated_AsciiSet_remove_eq', props=['C17', 'C04']),
     dict(file='src/common/mdurl/asciiset.rs', impl='AsciiSet', fn='has', lean='AsciiSet_has',
-         model='MdIt.Url.setHas', theorem='translated_AsciiSet_has_eq', props=['C17', 'C04']),
+         model='MdIt.Url.setHas', theorem='MdIt.GenTranslated.translated_AsciiSet_has_eq', props=['C17', 'C04']),
     dict(file='src/generics/inline/emph_pair.rs', impl=None, fn='is_odd_match', lean='is_odd_match',
-         model='MdIt.Inline.isOddMatch', theorem='translated_is_odd_match_eq', props=['C01', 'C05', 'C10', 'C11']),
+         model='MdIt.Inline.isOddMatch', theorem='MdIt.GenTranslated.translated_is_odd_match_eq', props=['C01', 'C05', 'C10', 'C11']),
 ]
 
 
@@ -364,7 +364,6 @@ class Parser:
             if self.at('id', 'let'):
                 self.next()
                 if self.at('id', 'mut'): self.refuse('mutable binding (`let mut`)')
-                if not self.at('id') or self.at('id', '_') and False: self.refuse('pattern in `let`')
                 if not self.at('id'): self.refuse('pattern in `let`')
                 name = self.next()[1]
                 ty = None
@@ -410,8 +409,7 @@ class Parser:
             if prec == 4 and self.at('p') and self.peek()[1] in BINPREC and BINPREC[self.peek()[1]] == 4:
                 self.refuse('chained comparison')
             lhs = ('bin', op, lhs, rhs, t[2])
-        if self.atp('..') or self.atp('..=') and minprec == 1:
-            if minprec == 1: self.refuse('range expression')
+        if self.atp('..') or self.atp('..='): self.refuse('range expression')
         if self.atp('?'): self.refuse('`?` operator')
         return lhs
 
@@ -489,9 +487,7 @@ class Parser:
             if self.at('id', 'else'):
                 self.next()
                 if self.at('id', 'if'):
-                    e2 = self.primary()
-                    el = ('block', [], e2) if False else ('block', [('expr', e2, e2[-1])], None)
-                    el = ('elif', e2)
+                    el = ('elif', self.primary())
                 else:
                     el = self.block()
             return ('if', c, th, el, t[2])
@@ -605,8 +601,6 @@ class Tr:
         if st[0] == 'newtype':
             if st[2] not in INT_TYPES: self.refuse('newtype `%s` over `%s`' % (n, st[2]), pos)
         return st
-
-    def is_int(self, t): return t in INT_TYPES or t == 'int?' or (isinstance(t, tuple) and t[0] == 'newtype' and False)
 
     def lean_ty(self, t):
         if t == 'bool': return 'Bool'
@@ -997,11 +991,6 @@ class Tr:
                 txt = 'if %s then %s else %s' % (c, b, txt)
             return '(%s%s)' % (pre, txt)
         self.refuse('statement `%s`' % e[0], e[-1])
-
-
-def pretty(s, indent='  '):
-    """lay out an if-chain: break before `else if` / final `else` of the outermost chain"""
-    return s
 
 
 def translate_fn(ctx, item, a, b, structs, known):
